@@ -10,3 +10,4 @@ if [ ! -s fixtures/tls/cert.pem ]; then
 fi
 cargo build --release --offline --features verif_hooks --bin pgcat --manifest-path /repo/Cargo.toml --target-dir /verif/target/rel 2>&1 | tail -2
 cargo build --release --offline --manifest-path /verif/harness/Cargo.toml 2>&1 | tail -2
+cargo build --release --offline --manifest-path /verif/harness-lib/Cargo.toml --target-dir /verif/target/lib 2>&1 | tail -2
